@@ -60,9 +60,6 @@ var c02Negs = []string{"lazy", "eager"}
 // c02File files the result of one bubble run; ok when nothing was violated.
 func c02File(b *memconn.Book, pan string, infra error, prob *memconn.Problem, c c02Case) bool {
 	b.N++
-	if pan != "" || infra != nil || prob != nil {
-		b.Transfers++ // the transfer that failed (the callers count the intact ones)
-	}
 	switch {
 	case pan != "" && strings.Contains(pan, "blocked goroutines remain") && prob == nil && infra == nil:
 		// goroutines left behind after the harness' teardown: not what this property is about
@@ -81,6 +78,7 @@ func c02File(b *memconn.Book, pan string, infra error, prob *memconn.Problem, c 
 	default:
 		return true
 	}
+	b.Transfers++ // the transfer that failed (the callers count the intact ones)
 	return false
 }
 
